@@ -358,7 +358,10 @@ class Interp:
                         key = (hb["p"], hp[i])
                         if key not in origin:
                             # upward: bound to `x + r.offset` or to an origin of the caller
-                            if is_offset_sum(b["_crate"], a) is not None or (lid is not None and (b["p"], lid) in origin):
+                            a_s = hir.strip_ref(a)
+                            top_level = a_s.get("k") == "Field" and a_s["name"] == "offset" and \
+                                self.types[b["_crate"].name].cls(a_s["base"]["t"]) == "ref"   # (`gd.offset`: the origin of a top-level child is 0)
+                            if top_level or is_offset_sum(b["_crate"], a) is not None or (lid is not None and (b["p"], lid) in origin):
                                 origin.add(key)
                                 changed = True
                         if key in origin and lid in nums[b["p"]] and (b["p"], lid) not in origin:
